@@ -125,6 +125,40 @@ def run(ctx):
                     summary=f"foldfilter {' '.join(args)} cat does not reproduce line {k}: got {gl[k] if k < len(gl) else None!r} "
                             f"want {wl[k] if k < len(wl) else None!r} (status {st})")
                 break
+    # the pieces the CHILD receives from the real tool (option handling included) are the pieces the model cuts for the width, the
+    # delimiter list and the -s mode that were asked for: multi-byte delimiter lists with widths below, at and above their byte length
+    log = os.path.join(ctx.tmp, "fold_pieces.log")
+    tl_lines = ["abcdef\u3002gh", "ab \u20ac cd, ef", "\u3002\u3002ab\u3001cdefgh\u3002", "a", "", "xyz" * 9, "h\u00e9llo w\u00f6rld \U0001F600 ok"]
+    for wd in (1, 2, 3, 4, 5, 7, 80):
+        for dname, dl in (("cjk", [0x3002, 0x3001, 32]), ("euro", [0x20ac, 44]), ("emoji", [0x1F600]), ("default", None), ("empty", [])):
+            for sflag in (0, 1):
+                if ctx.tier == "quick" and rng.random() < 0.5:
+                    continue
+                args = ["-w", str(wd)] + (["-s"] if sflag else []) + ([] if dl is None else ["-d", "".join(chr(c) for c in dl)])
+                data = "".join(l + "\n" for l in tl_lines).encode()
+                if os.path.exists(log):
+                    os.unlink(log)
+                st, out, err = pvlib.run_tool([ctx.bin("foldfilter")] + args + ["tee", log], data, env=pvlib.san_env(), timeout=30)
+                got = open(log, "rb").read().split(b"\n")[:-1] if os.path.exists(log) else []
+                mops = [f"fold.wrap {wd} {0 if sflag else 1} {dl_str(DL['default'] if dl is None else dl)} {hx(l.encode())}" for l in tl_lines]
+                mres = pvlib.run_lines(pvlib.PVDRIVER, mops)
+                want = []
+                for r_ in mres:
+                    want += [unhx(t.split("/")[0]) for t in r_.split()[2:]] if r_.startswith("ok ") else [b"<model error>"]
+                ctx.count("foldfilter.child-pieces", 1, [(wd, dname, sflag)])
+                if st != 0 or out != data or got != want:
+                    k = next((i for i, (p_, q_) in enumerate(zip(got, want)) if p_ != q_), min(len(got), len(want)))
+                    pvlib.report_violation(ctx, f"foldfilter-pieces:{wd}:{dname}:{sflag}", {"argv": ["foldfilter"] + args + ["tee", "LOG"], "stdin_hex": hx(data), "status": st,
+                                           "piece_index": k, "child_received": hx(got[k]) if k < len(got) else None, "pieces_for_these_options": hx(want[k]) if k < len(want) else None},
+                                           summary=f"foldfilter {' '.join(args)}: the child received piece {k} = {got[k] if k < len(got) else None!r}; for width {wd} and these delimiters the "
+                                                   f"pieces are {want[k] if k < len(want) else None!r} ... (status {st}, output {'equal' if out == data else 'differs'})")
+                    break
+            else:
+                continue
+            break
+        else:
+            continue
+        break
     import wrappers
     data, pauses = wrappers.paced_corpus("foldfilter")
     for args in (["-w", "30"], ["-w", "7", "-s"]):
